@@ -6,6 +6,12 @@ The theorems COMPUTE where the kernels put the mid-plane: at `z = −d` (`massW 
 must pass `d = −offset` (`Panel.calc_kM` passed `+offset` until fix ca9efb9, see known_findings.json:
 C04-mass-offset-sign).  Which sign the running glue passes is checked by tools/props/C04.py.
 Models regenerated from compmech/panel/models/*.pyx on every run.
+
+TOTAL MASS (last section): with the exact real integrals of the all-free Bardell basis (`bardellI`, Spec/BardellIntegrals.lean) the
+finalized mass matrix gives `cᵀ M c = mu·h·a·b` for each rigid translation `c` (`u ≡ 1`, `v ≡ 1`, `w ≡ 1`; Spec/RigidTranslation.lean
+`rigidAmp`), for any series orders `m, n ≥ 3`, any placement and ANY offset `d`; `mu·h·a·(y2 − y1)` for the strip kernels.
+The same instance closes the hypothesis "the integrals are real integrals of products of continuous functions" of the positive
+semi-definiteness theorems for the basis of the package (`kM_matrix_psd_bardell_*`).
 -/
 import CompmechVerif.Gen.Panel.Plate
 import CompmechVerif.Gen.Panel.PlateW
@@ -17,6 +23,8 @@ import CompmechVerif.Core.OpSpecLemmas
 import CompmechVerif.Spec.WholeMatrix
 import CompmechVerif.Spec.WholeMatrixPSD
 import CompmechVerif.Spec.PSDExample
+import CompmechVerif.Spec.RigidTranslation
+import CompmechVerif.Spec.BardellIntegrals
 import Mathlib.Tactic.Positivity
 import Mathlib.Tactic.FinCases
 import Mathlib.Data.Fintype.Basic
@@ -38,6 +46,15 @@ theorem kM_entry_plate_partial (P : PCtx K) (ha : P.a ≠ 0) (hb : P.b ≠ 0) (r
 theorem kMy1y2_entry_plate_partial (P : PCtx K) (ha : P.a ≠ 0) (hb : P.b ≠ 0) (ro co : Fin 3) :
     Plate.fkMy1y2.entry ro co P = hessian P .full .sub (velOps P) (massW P (-P.d)) (fld3 ro) (fld3 co) := by
   fin_cases ro <;> fin_cases co <;> entry_eq_form [velOps, massW]
+
+/-- `w`-only plate model: the single entry is the `w`–`w` block of the same kinetic-energy Hessian -/
+theorem kM_entry_platew_partial (P : PCtx K) (ha : P.a ≠ 0) (hb : P.b ≠ 0) (ro co : Fin 1) :
+    PlateW.fkM.entry ro co P = hessian P .full .full (velOps P) (massW P (-P.d)) (fld1 ro) (fld1 co) := by
+  fin_cases ro <;> fin_cases co <;> entry_eq_form [velOps, massW, fld1]
+
+theorem kMy1y2_entry_platew_partial (P : PCtx K) (ha : P.a ≠ 0) (hb : P.b ≠ 0) (ro co : Fin 1) :
+    PlateW.fkMy1y2.entry ro co P = hessian P .full .sub (velOps P) (massW P (-P.d)) (fld1 ro) (fld1 co) := by
+  fin_cases ro <;> fin_cases co <;> entry_eq_form [velOps, massW, fld1]
 
 theorem kM_entry_cpanel_partial (P : PCtx K) (ha : P.a ≠ 0) (hb : P.b ≠ 0) (ro co : Fin 3) :
     CPanel.fkM.entry ro co P = hessian P .full .full (velOps P) (massW P (-P.d)) (fld3 ro) (fld3 co) := by
@@ -67,6 +84,16 @@ theorem kM_symm_plate (P : PCtx K) (ha : P.a ≠ 0) (hb : P.b ≠ 0) (ro co : Fi
 theorem kMy1y2_symm_plate (P : PCtx K) (ha : P.a ≠ 0) (hb : P.b ≠ 0) (ro co : Fin 3) :
     Plate.fkMy1y2.entry ro co P = Plate.fkMy1y2.entry co ro P.swap := by
   rw [kMy1y2_entry_plate_partial P ha hb, kMy1y2_entry_plate_partial P.swap ha hb]
+  exact (hessian_swap P _ _ (velOps P) (massW P (-P.d)) (massW_symm P (-P.d)) _ _).symm
+
+theorem kM_symm_platew (P : PCtx K) (ha : P.a ≠ 0) (hb : P.b ≠ 0) (ro co : Fin 1) :
+    PlateW.fkM.entry ro co P = PlateW.fkM.entry co ro P.swap := by
+  rw [kM_entry_platew_partial P ha hb, kM_entry_platew_partial P.swap ha hb]
+  exact (hessian_swap P _ _ (velOps P) (massW P (-P.d)) (massW_symm P (-P.d)) _ _).symm
+
+theorem kMy1y2_symm_platew (P : PCtx K) (ha : P.a ≠ 0) (hb : P.b ≠ 0) (ro co : Fin 1) :
+    PlateW.fkMy1y2.entry ro co P = PlateW.fkMy1y2.entry co ro P.swap := by
+  rw [kMy1y2_entry_platew_partial P ha hb, kMy1y2_entry_platew_partial P.swap ha hb]
   exact (hessian_swap P _ _ (velOps P) (massW P (-P.d)) (massW_symm P (-P.d)) _ _).symm
 
 theorem kM_symm_cpanel (P : PCtx K) (ha : P.a ≠ 0) (hb : P.b ≠ 0) (ro co : Fin 3) :
@@ -102,6 +129,10 @@ theorem loop_nest_standard :
     KPanel.fkMy1y2.schema = LoopSchema.std 3 (some 41) := by
   decide
 
+theorem loop_nest_standard_platew :
+    PlateW.fkM.schema = LoopSchema.std 1 none ∧ PlateW.fkMy1y2.schema = LoopSchema.stdYX 1 := by
+  decide
+
 open Compmech.Asm in
 theorem kM_matrix_plate (base : PCtx K) (I : Integrals K) (hI : I.Comm) (ha : base.a ≠ 0) (hb : base.b ≠ 0)
     (m n row0 : Nat) {i k j l : Nat} (hi : i < m) (hk : k < m) (hj : j < n) (hl : l < n) (α β : Fin 3) :
@@ -121,6 +152,26 @@ theorem kMy1y2_matrix_plate (base : PCtx K) (I : Integrals K) (hI : I.Comm) (ha 
   rw [panelCooYX_entry 3 m n row0 _ base I hI
     (fun ro co i k j l => kMy1y2_symm_plate (ctxAt base I i k j l) ha hb ro co) hi hk hj hl]
   exact kMy1y2_entry_plate_partial (ctxAt base I i k j l) ha hb α β
+
+open Compmech.Asm in
+theorem kM_matrix_platew (base : PCtx K) (I : Integrals K) (hI : I.Comm) (ha : base.a ≠ 0) (hb : base.b ≠ 0)
+    (m n row0 : Nat) {i k j l : Nat} (hi : i < m) (hk : k < m) (hj : j < n) (hl : l < n) (α β : Fin 1) :
+    toFun (panelCoo 1 m n row0 PlateW.fkM.entry base I) (row0 + 1 * (j * m + i) + α.val)
+        (row0 + 1 * (l * m + k) + β.val)
+      = hessian (ctxAt base I i k j l) .full .full (velOps base) (massW base (-base.d)) (fld1 α) (fld1 β) := by
+  rw [panelCoo_entry 1 m n row0 _ base I hI
+    (fun ro co i k j l => kM_symm_platew (ctxAt base I i k j l) ha hb ro co) hi hk hj hl]
+  exact kM_entry_platew_partial (ctxAt base I i k j l) ha hb α β
+
+open Compmech.Asm in
+theorem kMy1y2_matrix_platew (base : PCtx K) (I : Integrals K) (hI : I.Comm) (ha : base.a ≠ 0) (hb : base.b ≠ 0)
+    (m n row0 : Nat) {i k j l : Nat} (hi : i < m) (hk : k < m) (hj : j < n) (hl : l < n) (α β : Fin 1) :
+    toFun (panelCooYX 1 m n row0 PlateW.fkMy1y2.entry base I) (row0 + 1 * (j * m + i) + α.val)
+        (row0 + 1 * (l * m + k) + β.val)
+      = hessian (ctxAt base I i k j l) .full .sub (velOps base) (massW base (-base.d)) (fld1 α) (fld1 β) := by
+  rw [panelCooYX_entry 1 m n row0 _ base I hI
+    (fun ro co i k j l => kMy1y2_symm_platew (ctxAt base I i k j l) ha hb ro co) hi hk hj hl]
+  exact kMy1y2_entry_platew_partial (ctxAt base I i k j l) ha hb α β
 
 open Compmech.Asm in
 theorem kM_matrix_cpanel (base : PCtx K) (I : Integrals K) (hI : I.Comm) (ha : base.a ≠ 0) (hb : base.b ≠ 0)
@@ -215,6 +266,29 @@ theorem kMy1y2_matrix_psd_plate (base : PCtx ℝ) (I : Integrals ℝ) (hI : I.Co
       v (row0 + r) * toFun (panelCooYX 3 m n row0 Plate.fkMy1y2.entry base I) (row0 + r) (row0 + c) * v (row0 + c) :=
   matrix_psd_of_hessian _ m n row0 fld3 base I .full .sub (velOps base) (massW base (-base.d))
     (fun hi hk hj hl α β => kMy1y2_matrix_plate base I hI ha hb m n row0 hi hk hj hl α β) X Y x₁ x₂ y₁ y₂ hR
+    (massW_psd base (-base.d) hmu hh) hab v
+
+open Compmech.Asm in
+/-- `w`-only plate -/
+theorem kM_matrix_psd_platew (base : PCtx ℝ) (I : Integrals ℝ) (hI : I.Comm) (ha : base.a ≠ 0) (hb : base.b ≠ 0)
+    (hmu : 0 ≤ base.mu) (hh : 0 ≤ base.h) (hab : 0 ≤ base.a * base.b)
+    (X Y : Nat → Fld → Nat → ℝ → ℝ) (x₁ x₂ y₁ y₂ : ℝ) (hR : RealIntegrals I .full .full X Y x₁ x₂ y₁ y₂)
+    (m n row0 : Nat) (v : Nat → ℝ) :
+    0 ≤ ∑ r ∈ Finset.range (1 * m * n), ∑ c ∈ Finset.range (1 * m * n),
+      v (row0 + r) * toFun (panelCoo 1 m n row0 PlateW.fkM.entry base I) (row0 + r) (row0 + c) * v (row0 + c) :=
+  matrix_psd_of_hessian _ m n row0 fld1 base I .full .full (velOps base) (massW base (-base.d))
+    (fun hi hk hj hl α β => kM_matrix_platew base I hI ha hb m n row0 hi hk hj hl α β) X Y x₁ x₂ y₁ y₂ hR
+    (massW_psd base (-base.d) hmu hh) hab v
+
+open Compmech.Asm in
+theorem kMy1y2_matrix_psd_platew (base : PCtx ℝ) (I : Integrals ℝ) (hI : I.Comm) (ha : base.a ≠ 0) (hb : base.b ≠ 0)
+    (hmu : 0 ≤ base.mu) (hh : 0 ≤ base.h) (hab : 0 ≤ base.a * base.b)
+    (X Y : Nat → Fld → Nat → ℝ → ℝ) (x₁ x₂ y₁ y₂ : ℝ) (hR : RealIntegrals I .full .sub X Y x₁ x₂ y₁ y₂)
+    (m n row0 : Nat) (v : Nat → ℝ) :
+    0 ≤ ∑ r ∈ Finset.range (1 * m * n), ∑ c ∈ Finset.range (1 * m * n),
+      v (row0 + r) * toFun (panelCooYX 1 m n row0 PlateW.fkMy1y2.entry base I) (row0 + r) (row0 + c) * v (row0 + c) :=
+  matrix_psd_of_hessian _ m n row0 fld1 base I .full .sub (velOps base) (massW base (-base.d))
+    (fun hi hk hj hl α β => kMy1y2_matrix_platew base I hI ha hb m n row0 hi hk hj hl α β) X Y x₁ x₂ y₁ y₂ hR
     (massW_psd base (-base.d) hmu hh) hab v
 
 open Compmech.Asm in
@@ -325,5 +399,254 @@ example (s m n row0 : Nat) (v : Nat → ℝ) :
     (fun sec _ => mul_nonneg (by norm_num [unitBase]) (section_b_pos s sec).le)
     (fun _ => mono) (fun _ => mono) (fun _ => -1) (fun _ => 1) (fun _ => -1) (fun _ => 1) (fun _ _ => monoI_real _ _)
     m n row0 v
+
+/-! ### positive semi-definiteness for the ACTUAL basis: the exact real integrals of the all-free Bardell functions
+
+`bardellI ξ₁ ξ₂ η₁ η₂` (Spec/BardellIntegrals.lean) is DEFINED as the real interval integrals of products of the (derivatives of
+the) Bardell polynomials with unit flags — whole edge `[−1, 1]`, section `[ξ₁, ξ₂]`, strip `[η₁, η₂]` — so the hypotheses `I.Comm` and
+`RealIntegrals` of the theorems above are theorems for it (`bardellI_comm`, `bardellI_real_*`).  What is left as hypothesis is
+only `a, b ≠ 0`, `mu, h ≥ 0`, `a·b ≥ 0` (and `η₁ ≤ η₂` for a strip). -/
+
+open Compmech.Asm in
+/-- flat plate, Bardell basis (all edges free): `vᵀ M v ≥ 0` for every `v`, every `m, n, row0` -/
+theorem kM_matrix_psd_bardell_plate (base : PCtx ℝ) (ha : base.a ≠ 0) (hb : base.b ≠ 0)
+    (hmu : 0 ≤ base.mu) (hh : 0 ≤ base.h) (hab : 0 ≤ base.a * base.b) (ξ₁ ξ₂ η₁ η₂ : ℝ) (m n row0 : Nat) (v : Nat → ℝ) :
+    0 ≤ ∑ r ∈ Finset.range (3 * m * n), ∑ c ∈ Finset.range (3 * m * n),
+      v (row0 + r) * toFun (panelCoo 3 m n row0 Plate.fkM.entry base (bardellI ξ₁ ξ₂ η₁ η₂)) (row0 + r) (row0 + c)
+        * v (row0 + c) :=
+  kM_matrix_psd_plate base _ (bardellI_comm ξ₁ ξ₂ η₁ η₂) ha hb hmu hh hab bfun bfun (-1) 1 (-1) 1
+    (bardellI_real_full_full ξ₁ ξ₂ η₁ η₂) m n row0 v
+
+open Compmech.Asm in
+/-- flat plate, strip `[η₁, η₂]` -/
+theorem kMy1y2_matrix_psd_bardell_plate (base : PCtx ℝ) (ha : base.a ≠ 0) (hb : base.b ≠ 0)
+    (hmu : 0 ≤ base.mu) (hh : 0 ≤ base.h) (hab : 0 ≤ base.a * base.b) (ξ₁ ξ₂ η₁ η₂ : ℝ) (hη : η₁ ≤ η₂)
+    (m n row0 : Nat) (v : Nat → ℝ) :
+    0 ≤ ∑ r ∈ Finset.range (3 * m * n), ∑ c ∈ Finset.range (3 * m * n),
+      v (row0 + r) * toFun (panelCooYX 3 m n row0 Plate.fkMy1y2.entry base (bardellI ξ₁ ξ₂ η₁ η₂)) (row0 + r) (row0 + c)
+        * v (row0 + c) :=
+  kMy1y2_matrix_psd_plate base _ (bardellI_comm ξ₁ ξ₂ η₁ η₂) ha hb hmu hh hab bfun bfun (-1) 1 η₁ η₂
+    (bardellI_real_full_sub ξ₁ ξ₂ η₁ η₂ hη) m n row0 v
+
+open Compmech.Asm in
+/-- `w`-only plate -/
+theorem kM_matrix_psd_bardell_platew (base : PCtx ℝ) (ha : base.a ≠ 0) (hb : base.b ≠ 0)
+    (hmu : 0 ≤ base.mu) (hh : 0 ≤ base.h) (hab : 0 ≤ base.a * base.b) (ξ₁ ξ₂ η₁ η₂ : ℝ) (m n row0 : Nat) (v : Nat → ℝ) :
+    0 ≤ ∑ r ∈ Finset.range (1 * m * n), ∑ c ∈ Finset.range (1 * m * n),
+      v (row0 + r) * toFun (panelCoo 1 m n row0 PlateW.fkM.entry base (bardellI ξ₁ ξ₂ η₁ η₂)) (row0 + r) (row0 + c)
+        * v (row0 + c) :=
+  kM_matrix_psd_platew base _ (bardellI_comm ξ₁ ξ₂ η₁ η₂) ha hb hmu hh hab bfun bfun (-1) 1 (-1) 1
+    (bardellI_real_full_full ξ₁ ξ₂ η₁ η₂) m n row0 v
+
+open Compmech.Asm in
+/-- cylindrical panel -/
+theorem kM_matrix_psd_bardell_cpanel (base : PCtx ℝ) (ha : base.a ≠ 0) (hb : base.b ≠ 0)
+    (hmu : 0 ≤ base.mu) (hh : 0 ≤ base.h) (hab : 0 ≤ base.a * base.b) (ξ₁ ξ₂ η₁ η₂ : ℝ) (m n row0 : Nat) (v : Nat → ℝ) :
+    0 ≤ ∑ r ∈ Finset.range (3 * m * n), ∑ c ∈ Finset.range (3 * m * n),
+      v (row0 + r) * toFun (panelCoo 3 m n row0 CPanel.fkM.entry base (bardellI ξ₁ ξ₂ η₁ η₂)) (row0 + r) (row0 + c)
+        * v (row0 + c) :=
+  kM_matrix_psd_cpanel base _ (bardellI_comm ξ₁ ξ₂ η₁ η₂) ha hb hmu hh hab bfun bfun (-1) 1 (-1) 1
+    (bardellI_real_full_full ξ₁ ξ₂ η₁ η₂) m n row0 v
+
+open Compmech.Asm in
+/-- cylindrical panel, strip -/
+theorem kMy1y2_matrix_psd_bardell_cpanel (base : PCtx ℝ) (ha : base.a ≠ 0) (hb : base.b ≠ 0)
+    (hmu : 0 ≤ base.mu) (hh : 0 ≤ base.h) (hab : 0 ≤ base.a * base.b) (ξ₁ ξ₂ η₁ η₂ : ℝ) (hη : η₁ ≤ η₂)
+    (m n row0 : Nat) (v : Nat → ℝ) :
+    0 ≤ ∑ r ∈ Finset.range (3 * m * n), ∑ c ∈ Finset.range (3 * m * n),
+      v (row0 + r) * toFun (panelCooYX 3 m n row0 CPanel.fkMy1y2.entry base (bardellI ξ₁ ξ₂ η₁ η₂)) (row0 + r) (row0 + c)
+        * v (row0 + c) :=
+  kMy1y2_matrix_psd_cpanel base _ (bardellI_comm ξ₁ ξ₂ η₁ η₂) ha hb hmu hh hab bfun bfun (-1) 1 η₁ η₂
+    (bardellI_real_full_sub ξ₁ ξ₂ η₁ η₂ hη) m n row0 v
+
+open Compmech.Asm in
+/-- conical panel: section `sec` integrates over `[ξ₁ sec, ξ₂ sec] × [−1, 1]` -/
+theorem kM_matrix_psd_bardell_kpanel (base : PCtx ℝ) (s : Nat) (ha : base.a ≠ 0)
+    (hb : ∀ sec, (sectionBase base s sec).b ≠ 0) (hmu : 0 ≤ base.mu) (hh : 0 ≤ base.h)
+    (hab : ∀ sec, sec < s → 0 ≤ base.a * (sectionBase base s sec).b)
+    (ξ₁ ξ₂ : Nat → ℝ) (hξ : ∀ sec, sec < s → ξ₁ sec ≤ ξ₂ sec) (η₁ η₂ : ℝ) (m n row0 : Nat) (v : Nat → ℝ) :
+    0 ≤ ∑ r ∈ Finset.range (3 * m * n), ∑ c ∈ Finset.range (3 * m * n),
+      v (row0 + r) * toFun (conePanelCoo s 3 m n row0 KPanel.fkM.entry base fun sec => bardellI (ξ₁ sec) (ξ₂ sec) η₁ η₂)
+        (row0 + r) (row0 + c) * v (row0 + c) :=
+  kM_matrix_psd_kpanel base _ (fun sec => bardellI_comm (ξ₁ sec) (ξ₂ sec) η₁ η₂) s ha hb hmu hh hab
+    (fun _ => bfun) (fun _ => bfun) ξ₁ ξ₂ (fun _ => -1) (fun _ => 1)
+    (fun sec hsec => bardellI_real_sub_full (ξ₁ sec) (ξ₂ sec) η₁ η₂ (hξ sec hsec)) m n row0 v
+
+/-! ### TOTAL MASS: a rigid translation of an all-free panel sees `mu · h · area`
+
+`rigidAmp num m row0 α` (Spec/RigidTranslation.lean): amplitude `1` at the positions `row0 + num·(j·m + i) + α` of the translation
+Hermite functions `i, j ∈ {0, 2}` of field `α`, zero elsewhere — with all edge flags one and `m, n ≥ 3` the series with these
+amplitudes is the constant field `1` (`u₀ + u₂ = 1`, Bardell/RigidBody.lean `hermite_translation_sum`, decided on the coefficient
+lists).  `I = bardellI …`: the exact real integrals of that basis.  Then, for the matrix handed to the user, ANY series orders
+`m, n ≥ 3`, ANY placement `row0`, each of the three translations `α` and ANY offset `d` of the reference surface:
+`cᵀ M c = mu · h · a · b` (twice the kinetic energy of the unit velocity field).  The offset enters the same-field blocks only
+through the rotary inertia `mu·h·(d² + h²/12)`, which multiplies integrals of derivatives of the constant one.
+Proof: `quadForm_rigid3` (the quadratic form is the sum of 16 entries), `kM_matrix_*` (each entry is the kinetic Hessian of the
+pair), `massHessian_rigid_sum_bardell` (the 16 Hessians add up to `(ab/4)·mu·h·2·2`). -/
+
+open Compmech.Asm in
+/-- flat plate: total mass seen by the rigid translation of field `α` (`0`: `u ≡ 1`, `1`: `v ≡ 1`, `2`: `w ≡ 1`) -/
+theorem total_mass_plate (base : PCtx ℝ) (ha : base.a ≠ 0) (hb : base.b ≠ 0) (ξ₁ ξ₂ η₁ η₂ : ℝ)
+    (m n row0 : Nat) (hm : 3 ≤ m) (hn : 3 ≤ n) (α : Fin 3) :
+    ∑ r ∈ Finset.range (3 * m * n), ∑ c ∈ Finset.range (3 * m * n),
+      rigidAmp 3 m row0 α.val (row0 + r)
+        * toFun (panelCoo 3 m n row0 Plate.fkM.entry base (bardellI ξ₁ ξ₂ η₁ η₂)) (row0 + r) (row0 + c)
+        * rigidAmp 3 m row0 α.val (row0 + c)
+      = base.mu * base.h * base.a * base.b := by
+  have lt : ∀ {x N : Nat}, 3 ≤ N → x ∈ ({0, 2} : Finset Nat) → x < N := by
+    intro x N hN hx
+    simp only [Finset.mem_insert, Finset.mem_singleton] at hx
+    omega
+  rw [quadForm_rigid3 m n row0 hm hn α,
+    Finset.sum_congr rfl fun j hj => Finset.sum_congr rfl fun i hi => Finset.sum_congr rfl fun l hl =>
+      Finset.sum_congr rfl fun k hk => kM_matrix_plate base _ (bardellI_comm ξ₁ ξ₂ η₁ η₂) ha hb m n row0
+        (lt hm hi) (lt hm hk) (lt hn hj) (lt hn hl) α α,
+    massHessian_rigid_sum_bardell]
+  simp only [domLen]
+  ring
+
+open Compmech.Asm in
+/-- cylindrical panel (`a` × arc length `b`) -/
+theorem total_mass_cpanel (base : PCtx ℝ) (ha : base.a ≠ 0) (hb : base.b ≠ 0) (ξ₁ ξ₂ η₁ η₂ : ℝ)
+    (m n row0 : Nat) (hm : 3 ≤ m) (hn : 3 ≤ n) (α : Fin 3) :
+    ∑ r ∈ Finset.range (3 * m * n), ∑ c ∈ Finset.range (3 * m * n),
+      rigidAmp 3 m row0 α.val (row0 + r)
+        * toFun (panelCoo 3 m n row0 CPanel.fkM.entry base (bardellI ξ₁ ξ₂ η₁ η₂)) (row0 + r) (row0 + c)
+        * rigidAmp 3 m row0 α.val (row0 + c)
+      = base.mu * base.h * base.a * base.b := by
+  have lt : ∀ {x N : Nat}, 3 ≤ N → x ∈ ({0, 2} : Finset Nat) → x < N := by
+    intro x N hN hx
+    simp only [Finset.mem_insert, Finset.mem_singleton] at hx
+    omega
+  rw [quadForm_rigid3 m n row0 hm hn α,
+    Finset.sum_congr rfl fun j hj => Finset.sum_congr rfl fun i hi => Finset.sum_congr rfl fun l hl =>
+      Finset.sum_congr rfl fun k hk => kM_matrix_cpanel base _ (bardellI_comm ξ₁ ξ₂ η₁ η₂) ha hb m n row0
+        (lt hm hi) (lt hm hk) (lt hn hj) (lt hn hl) α α,
+    massHessian_rigid_sum_bardell]
+  simp only [domLen]
+  ring
+
+open Compmech.Asm in
+/-- `w`-only plate (one degree of freedom per basis function): the rigid translation `w ≡ 1` -/
+theorem total_mass_platew (base : PCtx ℝ) (ha : base.a ≠ 0) (hb : base.b ≠ 0) (ξ₁ ξ₂ η₁ η₂ : ℝ)
+    (m n row0 : Nat) (hm : 3 ≤ m) (hn : 3 ≤ n) (α : Fin 1) :
+    ∑ r ∈ Finset.range (1 * m * n), ∑ c ∈ Finset.range (1 * m * n),
+      rigidAmp 1 m row0 α.val (row0 + r)
+        * toFun (panelCoo 1 m n row0 PlateW.fkM.entry base (bardellI ξ₁ ξ₂ η₁ η₂)) (row0 + r) (row0 + c)
+        * rigidAmp 1 m row0 α.val (row0 + c)
+      = base.mu * base.h * base.a * base.b := by
+  have lt : ∀ {x N : Nat}, 3 ≤ N → x ∈ ({0, 2} : Finset Nat) → x < N := by
+    intro x N hN hx
+    simp only [Finset.mem_insert, Finset.mem_singleton] at hx
+    omega
+  rw [quadForm_rigid1 m n row0 hm hn α,
+    Finset.sum_congr rfl fun j hj => Finset.sum_congr rfl fun i hi => Finset.sum_congr rfl fun l hl =>
+      Finset.sum_congr rfl fun k hk => kM_matrix_platew base _ (bardellI_comm ξ₁ ξ₂ η₁ η₂) ha hb m n row0
+        (lt hm hi) (lt hm hk) (lt hn hj) (lt hn hl) α α]
+  rw [show fld1 α = fld3 2 from rfl, massHessian_rigid_sum_bardell]
+  simp only [domLen]
+  ring
+
+/-! the strip kernels `fkMy1y2` integrate over `y1 ≤ y ≤ y2`, i.e. `η ∈ [2 y1/b − 1, 2 y2/b − 1]` (`eta1`, `eta2` of the kernels):
+the rigid translations see the mass of the strip, `mu · h · a · (y2 − y1)` (no order between `y1` and `y2` is needed) -/
+
+open Compmech.Asm in
+/-- flat plate, strip `y1..y2` -/
+theorem total_mass_y1y2_plate (base : PCtx ℝ) (ha : base.a ≠ 0) (hb : base.b ≠ 0) (ξ₁ ξ₂ y1 y2 : ℝ)
+    (m n row0 : Nat) (hm : 3 ≤ m) (hn : 3 ≤ n) (α : Fin 3) :
+    ∑ r ∈ Finset.range (3 * m * n), ∑ c ∈ Finset.range (3 * m * n),
+      rigidAmp 3 m row0 α.val (row0 + r)
+        * toFun (panelCooYX 3 m n row0 Plate.fkMy1y2.entry base
+            (bardellI ξ₁ ξ₂ (2 * y1 / base.b - 1) (2 * y2 / base.b - 1))) (row0 + r) (row0 + c)
+        * rigidAmp 3 m row0 α.val (row0 + c)
+      = base.mu * base.h * base.a * (y2 - y1) := by
+  have lt : ∀ {x N : Nat}, 3 ≤ N → x ∈ ({0, 2} : Finset Nat) → x < N := by
+    intro x N hN hx
+    simp only [Finset.mem_insert, Finset.mem_singleton] at hx
+    omega
+  rw [quadForm_rigid3 m n row0 hm hn α,
+    Finset.sum_congr rfl fun j hj => Finset.sum_congr rfl fun i hi => Finset.sum_congr rfl fun l hl =>
+      Finset.sum_congr rfl fun k hk => kMy1y2_matrix_plate base _ (bardellI_comm _ _ _ _) ha hb m n row0
+        (lt hm hi) (lt hm hk) (lt hn hj) (lt hn hl) α α,
+    massHessian_rigid_sum_bardell]
+  simp only [domLen]
+  field_simp
+  ring
+
+open Compmech.Asm in
+/-- cylindrical panel, strip `y1..y2` -/
+theorem total_mass_y1y2_cpanel (base : PCtx ℝ) (ha : base.a ≠ 0) (hb : base.b ≠ 0) (ξ₁ ξ₂ y1 y2 : ℝ)
+    (m n row0 : Nat) (hm : 3 ≤ m) (hn : 3 ≤ n) (α : Fin 3) :
+    ∑ r ∈ Finset.range (3 * m * n), ∑ c ∈ Finset.range (3 * m * n),
+      rigidAmp 3 m row0 α.val (row0 + r)
+        * toFun (panelCooYX 3 m n row0 CPanel.fkMy1y2.entry base
+            (bardellI ξ₁ ξ₂ (2 * y1 / base.b - 1) (2 * y2 / base.b - 1))) (row0 + r) (row0 + c)
+        * rigidAmp 3 m row0 α.val (row0 + c)
+      = base.mu * base.h * base.a * (y2 - y1) := by
+  have lt : ∀ {x N : Nat}, 3 ≤ N → x ∈ ({0, 2} : Finset Nat) → x < N := by
+    intro x N hN hx
+    simp only [Finset.mem_insert, Finset.mem_singleton] at hx
+    omega
+  rw [quadForm_rigid3 m n row0 hm hn α,
+    Finset.sum_congr rfl fun j hj => Finset.sum_congr rfl fun i hi => Finset.sum_congr rfl fun l hl =>
+      Finset.sum_congr rfl fun k hk => kMy1y2_matrix_cpanel base _ (bardellI_comm _ _ _ _) ha hb m n row0
+        (lt hm hi) (lt hm hk) (lt hn hj) (lt hn hl) α α,
+    massHessian_rigid_sum_bardell]
+  simp only [domLen]
+  field_simp
+  ring
+
+open Compmech.Asm in
+/-- `w`-only plate, strip `y1..y2` -/
+theorem total_mass_y1y2_platew (base : PCtx ℝ) (ha : base.a ≠ 0) (hb : base.b ≠ 0) (ξ₁ ξ₂ y1 y2 : ℝ)
+    (m n row0 : Nat) (hm : 3 ≤ m) (hn : 3 ≤ n) (α : Fin 1) :
+    ∑ r ∈ Finset.range (1 * m * n), ∑ c ∈ Finset.range (1 * m * n),
+      rigidAmp 1 m row0 α.val (row0 + r)
+        * toFun (panelCooYX 1 m n row0 PlateW.fkMy1y2.entry base
+            (bardellI ξ₁ ξ₂ (2 * y1 / base.b - 1) (2 * y2 / base.b - 1))) (row0 + r) (row0 + c)
+        * rigidAmp 1 m row0 α.val (row0 + c)
+      = base.mu * base.h * base.a * (y2 - y1) := by
+  have lt : ∀ {x N : Nat}, 3 ≤ N → x ∈ ({0, 2} : Finset Nat) → x < N := by
+    intro x N hN hx
+    simp only [Finset.mem_insert, Finset.mem_singleton] at hx
+    omega
+  rw [quadForm_rigid1 m n row0 hm hn α,
+    Finset.sum_congr rfl fun j hj => Finset.sum_congr rfl fun i hi => Finset.sum_congr rfl fun l hl =>
+      Finset.sum_congr rfl fun k hk => kMy1y2_matrix_platew base _ (bardellI_comm _ _ _ _) ha hb m n row0
+        (lt hm hi) (lt hm hk) (lt hn hj) (lt hn hl) α α]
+  rw [show fld1 α = fld3 2 from rfl, massHessian_rigid_sum_bardell]
+  simp only [domLen]
+  field_simp
+  ring
+
+/-! Non-vacuity: the panel of Spec/PSDExample.lean (`a = b = 2`, `mu = h = 1`, offset `d = 1/10 ≠ 0`) with the Bardell integrals meets
+every hypothesis: its mass matrix is positive semi-definite and each rigid translation sees the mass `1·1·2·2 = 4`, for every
+`m, n ≥ 3` and every placement; the strip `1/2 ≤ y ≤ 3/2` weighs `1·1·2·1 = 2`. -/
+
+open Compmech.Asm PSDExample in
+example (m n row0 : Nat) (v : Nat → ℝ) :
+    0 ≤ ∑ r ∈ Finset.range (3 * m * n), ∑ c ∈ Finset.range (3 * m * n),
+      v (row0 + r) * toFun (panelCoo 3 m n row0 Plate.fkM.entry unitBase (bardellI 0 0 0 0)) (row0 + r) (row0 + c) * v (row0 + c) :=
+  kM_matrix_psd_bardell_plate unitBase (by norm_num [unitBase]) (by norm_num [unitBase]) (by norm_num [unitBase])
+    (by norm_num [unitBase]) (by norm_num [unitBase]) 0 0 0 0 m n row0 v
+
+open Compmech.Asm PSDExample in
+example (m n row0 : Nat) (hm : 3 ≤ m) (hn : 3 ≤ n) (α : Fin 3) :
+    ∑ r ∈ Finset.range (3 * m * n), ∑ c ∈ Finset.range (3 * m * n),
+      rigidAmp 3 m row0 α.val (row0 + r)
+        * toFun (panelCoo 3 m n row0 Plate.fkM.entry unitBase (bardellI 0 0 0 0)) (row0 + r) (row0 + c)
+        * rigidAmp 3 m row0 α.val (row0 + c) = 4 := by
+  rw [total_mass_plate unitBase (by norm_num [unitBase]) (by norm_num [unitBase]) 0 0 0 0 m n row0 hm hn α]
+  norm_num [unitBase]
+
+open Compmech.Asm PSDExample in
+example (m n row0 : Nat) (hm : 3 ≤ m) (hn : 3 ≤ n) (α : Fin 3) :
+    ∑ r ∈ Finset.range (3 * m * n), ∑ c ∈ Finset.range (3 * m * n),
+      rigidAmp 3 m row0 α.val (row0 + r)
+        * toFun (panelCooYX 3 m n row0 Plate.fkMy1y2.entry unitBase
+            (bardellI 0 0 (2 * (1 / 2) / unitBase.b - 1) (2 * (3 / 2) / unitBase.b - 1))) (row0 + r) (row0 + c)
+        * rigidAmp 3 m row0 α.val (row0 + c) = 2 := by
+  rw [total_mass_y1y2_plate unitBase (by norm_num [unitBase]) (by norm_num [unitBase]) 0 0 (1 / 2) (3 / 2) m n row0 hm hn α]
+  norm_num [unitBase]
 
 end Compmech.Panel.C04
